@@ -1,3 +1,12 @@
 PROPERTIES = {
+    "C01": "xv.harness.c01_identifier",
+    "C02": "xv.harness.c02_neutral",
+    "C03": "xv.harness.c03_collision",
+    "C04": "xv.harness.c04_ordering",
+    "C06": "xv.harness.c06_states",
+    "C07": "xv.harness.c07_failures",
+    "C08": "xv.harness.c08_capacity",
+    "C09": "xv.harness.c09_release",
+    "C10": "xv.harness.c10_markers",
     "C18": "xv.harness.c18_launcher",
 }
